@@ -32,6 +32,7 @@ mod p_c16;
 mod p_c17;
 mod p_c18;
 mod p_c19;
+mod p_c19s;
 mod p_c20;
 mod rng;
 mod spec;
@@ -328,6 +329,7 @@ fn main() {
                 ("C04", _) => p_c04::child_main(&a),
                 ("C10", _) => p_c10::child_main(&a),
                 ("C11", _) => p_c11::child_main(&a),
+                ("C19", "sysfault") => p_c19s::child_main(&a),
                 ("C19", _) => p_c19::child_main(&a),
                 _ => {
                     eprintln!("no child role {} for {}", a.role, a.prop);
